@@ -46,7 +46,7 @@ CHECKS["C09"] = (
 
 CHECKS["C07"] = (
     "bounded symbolic execution (CrossHair+z3): document mutations chosen by symbolic selectors (path x operation x replacement value of every YAML type) and symbolic strings in scalar fields, loaded in strict and collecting mode",
-    "Every single mutation (delete / replace by 17 values of every YAML type / non-string key) at every key path of five base documents (rule, correlation, filter, 4-document collection with global/repeat actions, rule with a pre-existing fault) and symbolic strings (len <= 1..3) in 13 scalar fields. Oracle: only SigmaError escapes in strict mode, nothing escapes in collecting mode, errors non-empty iff strict raises, first collected == raised. Also: a collection in which filters are applied while loading (6th base document); all sequences of 1..3 documents out of 10 valid / faulty kinds (error order); structured date texts (5 spellings x 4 years x 6 months x 7 days) in rules, filters and correlation rules.",
+    "Every single mutation (delete / replace by 20 values of every YAML type incl. infinity, overflowing numeric text, 400-digit integer / non-string key) at every key path of five base documents (rule, correlation, filter, 4-document collection with global/repeat actions, rule with a pre-existing fault) and symbolic strings (len <= 1..3) in 13 scalar fields. Oracle: only SigmaError escapes in strict mode, nothing escapes in collecting mode, errors non-empty iff strict raises, first collected == raised. Also: a collection in which filters are applied while loading (6th base document); all sequences of 1..3 documents out of 10 valid / faulty kinds (error order); structured date texts (5 spellings x 4 years x 6 months x 7 days) in rules, filters and correlation rules.",
     TB,
     "5.C07",
 )
@@ -135,7 +135,7 @@ CHECKS["C19"] = (
 
 CHECKS["C20"] = (
     "CrossHair-explored selectors over the modelled sources of nondeterminism: iteration order of every set created by the sigma.* source (import hook: set/frozenset names bound to order-permuting subclasses before the module bodies run, set displays and comprehensions rewritten to set([...]) calls), regex flag sets, and the draws of random.choices; a 14-item corpus is converted with the real code per (order, draw) and compared byte for byte with the baseline",
-    "PARTIAL: decides independence from the modelled set iteration orders (4 orders quick / 8 thorough) and random draws (4 draw sequences) for queries AND error texts of a 14-item corpus, and that internal identifiers never surface. Real PYTHONHASHSEED randomisation / process starts and sets created inside C code or third-party libraries are outside the solver's reach; a 3-seed subprocess run with ordinary sets is only a self-check.",
+    "PARTIAL: decides independence from the modelled set iteration orders (8 orders quick / 12 thorough) and random draws (4 draw sequences) for queries AND error texts of a 14-item corpus, and that internal identifiers never surface. Real PYTHONHASHSEED randomisation / process starts and sets created inside C code or third-party libraries are outside the solver's reach; a 3-seed subprocess run with ordinary sets is only a self-check.",
     TB,
     "5.C20",
 )
